@@ -398,9 +398,27 @@ where
 	} else {
 		None
 	};
+	// a cancelled transaction holds no reservations: whatever else it has locked is released
+	// in the same batch (also inputs that lie outside the scanned range)
+	let released: Vec<OutputData> = match (&updated_tx_entry, output.tx_log_entry) {
+		(Some(_), Some(id)) => w
+			.iter()
+			.filter(|o| {
+				o.root_key_id == parent_key_id
+					&& o.tx_log_entry == Some(id)
+					&& o.status == OutputStatus::Locked
+					&& o.key_id != output.key_id
+			})
+			.collect(),
+		_ => vec![],
+	};
 	let mut batch = w.batch(keychain_mask)?;
 	if let Some(t) = updated_tx_entry {
 		batch.save_tx_log_entry(t, &parent_key_id)?;
+	}
+	for mut o in released {
+		o.status = OutputStatus::Unspent;
+		batch.save(o)?;
 	}
 	if delete_output {
 		batch.delete(&output.key_id, &output.mmr_index)?;
